@@ -230,7 +230,10 @@ def translate(src):
     body = clean(fn.body)
     if body and isinstance(body[0], ast.Expr) and isinstance(body[0].value, ast.Constant) and isinstance(body[0].value.value, str):
         body = body[1:]
-    expect_len(body, 20, "body of _run_path", fn)
+    # first statement: input validation (array-likes accepted like fit), then the 20 statements of the path itself
+    expect_len(body, 21, "body of _run_path", fn)
+    lit(body[0], "X = check_array(X)")
+    body = body[1:]
     # ---- argument defaults
     D["mult_bad"], D["mult_default"], _ = default_if(body[0], "alpha_multiplier", "T", {"alpha_multiplier": ("alpha_multiplier", "T")})
     D["keep_bad"], D["keep_default"], _ = default_if(body[1], "keep_threshold", "T", {"keep_threshold": ("keep_threshold", "T")})
